@@ -395,6 +395,22 @@ func runC04(r *Run, p *Prog) {
 		r.Stat("T7_delivery_calls", n)
 		r.Floor("T7", 8)
 	})
+	// T9: the standard error replies used by routing are rendered by encoding/json from a typed value holding the name
+	r.Guard("T9", func() {
+		bname, _ := builtinDescription(p, T)
+		wfn := fnSet(ro.WFuncs)
+		for _, E := range []string{"InterfaceNotFound", "MethodNotFound", "InvalidParameter"} {
+			nt := p.NamedType(pkgVarlink, E)
+			if nt == nil {
+				r.Ob("T9", E, "typed standard error exists", hm.Pos(), false, "")
+				continue
+			}
+			st, _ := nt.Underlying().(*types.Struct)
+			ok, detail := stdErrorHelperOK(p, T, ro.CG, wfn, E, fmt.Sprintf("const:%q", bname+"."+E), st)
+			r.Ob("T9", E, "Reply"+E+" carries its argument in a typed value marshalled by encoding/json", nt.Obj().Pos(), ok,
+				"the standard error reply is not built from the typed struct holding the name ("+detail+"): for unusual names the reply may not be valid JSON, so no reply is sent and the connection ends")
+		}
+	})
 	// state-free routing: decode target fresh (re-evaluated here: routing must depend on the method string alone)
 	r.Guard("T8", func() {
 		ok, why := freshTarget(p, dec)
@@ -409,6 +425,10 @@ func runC04(r *Run, p *Prog) {
 			if a.Write && !isNamed(fieldTypeOf(ro.ServiceT, a.Field), "sync", "Mutex") {
 				r.Ob("T8", shortName(a.Fn), "dispatch path writes Service."+a.Field, a.Instr.Pos(), false, "the dispatch path keeps state in the Service: routing can depend on earlier calls, not on the method string alone")
 			}
+		}
+		for _, u := range sharedPackageState(p, hf) {
+			r.Ob("T8", shortName(u.Fn), "dispatch path uses package-level state "+u.G.Name(), u.At.Pos(), false,
+				"the dispatch path uses a package-level variable that can carry objects between calls: routing or the reply can depend on earlier calls")
 		}
 	})
 }
